@@ -114,3 +114,17 @@ Print Assumptions C15_route_uses_newest_conf.
 Example C15_ex_reconf :
   ns_route (ns_run [NsInit 0 2; NsInit 1 2; NsStop 0; NsInit 0 3; NsInit 2 3]) [116;58;97] <> Rejected.
 Proof. vm_compute. discriminate. Qed.
+
+(* (10) a merged multi-key command dispatches every key to its own hosted partition, or is rejected as a
+   whole when some key's partition is not hosted here — never answered from a subset of the keys *)
+Theorem C15_merged_all_or_reject : forall s pks l,
+  ns_route_all s pks = Some l ->
+  length l = length pks /\ forall i pk, nth_error pks i = Some pk ->
+                                        exists p, nth_error l i = Some p /\ ns_route s pk = Served p.
+Proof. exact ns_route_all_some. Qed.
+Print Assumptions C15_merged_all_or_reject.
+
+Theorem C15_merged_rejects_unhosted : forall s pks pk,
+  In pk pks -> ns_route s pk = Rejected -> ns_route_all s pks = None.
+Proof. exact ns_route_all_rejects. Qed.
+Print Assumptions C15_merged_rejects_unhosted.
